@@ -221,6 +221,8 @@ def big_map_case(ctx, g, rng, d):
     """20-80 records whose URI prefixes form a deep random tree: longest match among many candidates."""
     api = ctx.api
     n = rng.randint(20, 80)
+    if rng.random() < 0.2:  # sometimes far above any plausible threshold
+        n = rng.choice([300, 700, 1500]) if ctx.tier == "thorough" else 260
     nodes = ["http://x/", "https://y.org/ns#", "urn:z:"]
     while len(nodes) < n * 2:
         base = rng.choice(nodes)
